@@ -32,8 +32,15 @@ def run_case(case):
     calls = [0]
     dur = case.get("dur", 0.0)
 
+    steps = case.get("steps")
+
     async def run_async(job):
         calls[0] += 1
+        if steps:
+            # duration = a number of event-loop iterations chosen from the job id: deterministic completion orders, among them jobs
+            # that complete in the one or two iterations between gather() having its batch and the loop actually stopping
+            for _ in range(steps[int(job.id.split(".")[1]) % len(steps)]):
+                await asyncio.sleep(0)
         if dur:
             await asyncio.sleep(dur)
         return job.parameters["x"]
@@ -129,6 +136,11 @@ def gen(count, backends):
         # left of that time budget (slow jobs): a time budget that is not cleared fires in the later call
         yield dict(calls=[["timeout_max", 1], ["plain", 5]], workers=1, backend="serial", search="random", dur=0.3)
         yield dict(calls=[["timeout_max", 2], ["strict", 5]], workers=1, backend="thread", search="random", dur=0.3)
+        # serial backend, durations counted in loop iterations (no wall clock): the upper bound n + W under every completion order
+        for j in range(count // 2):
+            W = rng.choice([2, 3, 3, 4, 4])
+            yield dict(calls=[[rng.choice(["plain", "plain", "strict"]), rng.choice([1, 2, 5])] for _ in range(rng.randint(2, 3))], workers=W,
+                       backend="serial", search="random" if j % 4 else "cbo", dur=0.0, steps=[rng.randint(1, 12) for _ in range(12)], seed=rng.randint(0, 1000))
         n = count * (2 if tier == "search" else 1)
         for i in range(n):
             L = rng.randint(1, 4 if tier != "search" else 3)
